@@ -15,6 +15,7 @@ case "$prop" in
     C19|C01) target=fz_program; maxlen=1024; runs=40000;;
     C02|C03) target=fz_cmp; maxlen=256; runs=1000000;;
     C04|C16) target=fz_fmt; maxlen=256; runs=600000;;
+    C06|C07|C08|C09|C10|C11|C12) target=fz_num; maxlen=256; runs=500000;;
     *) exit 0;;
 esac
 RUNS=${VERIF_FUZZ_RUNS:-$runs}
